@@ -288,7 +288,7 @@ def tt_invariant(sc, obj, what=''):
     return probs
 
 
-def chain_legs(obj):
+def chain_legs(obj, check_conj=True):
     """leg-level chain check: the right rank index of core k is the left rank index of core k+1. returns problems"""
     probs = []
     cores = obj._attrs.get('cores', [])
@@ -300,7 +300,7 @@ def chain_legs(obj):
         if len(ga) != len(gb):
             continue
         for x, y in zip(ga, gb):
-            if x.resolve().kind == 'R' and y.resolve().kind == 'R' and not x.same(y):
+            if x.resolve().kind == 'R' and y.resolve().kind == 'R' and (x.resolve().key != y.resolve().key or (check_conj and x.resolve().conj != y.resolve().conj)):
                 probs.append(f'bond between cores {k} and {k + 1}: right index {x} of core {k} is not the left index {y} of core {k + 1}')
     return probs
 
